@@ -340,6 +340,9 @@ fn extra_faults(sc: &Scenario, hist: &[Op], w: &World, out: &mut Vec<Violation>)
         let log = w0.disk.take_log();
         let n = w0.disk.calls() - before;
         for k in 0..n {
+            if crate::engine::past_deadline() {
+                return;
+            }
             let w1 = sc.replay(hist);
             if w1.dead || w1.disk.calls() != before {
                 crate::engine::machinery_fail("replay is not deterministic (extra-call fault probe)");
@@ -424,6 +427,9 @@ impl Oracle for Faults {
             return;
         }
         for k in 0..st.log.len() {
+            if crate::engine::past_deadline() {
+                return;
+            }
             self.one(sc, hist, st, k, out);
         }
         if self.pairs && hist.len() >= 2 {
